@@ -25,7 +25,7 @@ EP_NAME = {"instantiate": "instantiate", "exec": "execute", "query": "query", "s
 N_IN = ["foo", "bar_baz", "a", "get_x", "x_pos", "a_b", "set_a_b", "foo1", "foo1_bar", "v2",
         "item3_list4", "abc_d9_e"]
 # N_out: outside that shape; only the self-consistency clauses of C03/C05 speak about them.
-N_OUT = ["_lead", "dbl__us", "foo_1", "trail_", "r#type"]
+N_OUT = ["_lead", "dbl__us", "foo_1", "trail_", "a__1", "x1y"]
 N_RES = ["dispatch", "execute", "query", "sudo", "instantiate", "migrate", "reply", "querier"]
 
 N_IN_RE = re.compile(r"^[a-z]+[0-9]*(_[a-z]+[0-9]*)*$")
@@ -70,6 +70,7 @@ TYPES_THOROUGH = [
     ("Vec<Option<Inner>>", ["[]", '[null,{"n":3,"o":null}]']),
 ]
 TYPE_VALUES = dict(TYPES + TYPES_THOROUGH)
+TYPE_VALUES["Option<String>"] = ["null", '"s"']
 
 ARG_NAMES = ["a", "b1", "_c", "x_y", "r#type", "msg"]
 ARG_NAMES_E1 = ARG_NAMES + ["field1", "contract", "ctx", "self_"]
@@ -183,7 +184,7 @@ def echo_args(m):
     return "vec![%s]" % ", ".join('("%s", vsupport::js(&%s))' % (bare(a.name), a.name) for a in m.args)
 
 
-def method_body(m, part_label, style, contract_err=None):
+def method_body(m, part_label, style, contract_err=None, via_question=False):
     if m.body is not None:
         return m.body
     if style == "stub":
@@ -197,6 +198,8 @@ def method_body(m, part_label, style, contract_err=None):
         call = 'vsupport::echo_mut("%s", ctx.deps, &ctx.env, None, %s)' % (h, echo_args(m))
     if m.err == "own":
         return '{ %s.map_err(|e| vsupport::own_err(e, "%s")) }' % (call, h)
+    if via_question:
+        return "{ Ok(%s?) }" % call
     return "{ %s }" % call
 
 
@@ -221,7 +224,7 @@ def render_impl_method(m, part_label, style, iface, custom_query=None):
     ret = m.ret or default_ret(m.kind, "iface", None, m.err, m.qret, iface)
     ctxp = "ctx: " + ctx_type(m.kind, custom_query, iface)
     args = "".join(", %s: %s" % (x.name, x.ty) for x in m.args)
-    return "fn %s(&self, %s%s) -> %s %s" % (m.name, ctxp, args, ret, method_body(m, part_label, style))
+    return "fn %s(&self, %s%s) -> %s %s" % (m.name, ctxp, args, ret, method_body(m, part_label, style, via_question=True))
 
 
 def render_interface(i, style="stub", fw="sylvia"):
